@@ -52,6 +52,7 @@ PROPS = {
             {'engine': 'verus', 'name': 'end_next', 'tier': 'quick', 'role': 'End::next routing contract'},
             {'engine': 'verus', 'name': 'route_next', 'tier': 'quick', 'role': 'RoutingEnd::next: control elements reach every connected replica'},
             {'engine': 'verus', 'name': 'setup_senders', 'tier': 'quick', 'role': 'End::setup_senders: block_senders partitions the sender indexes into non-empty groups - singletons for All (broadcast), otherwise exactly the senders of one downstream block per group in sorted-endpoint order - i.e. End.inv, the precondition of End::next, is now PROVED on the real body (HashMap by its map view, the two iterator chains desugared by declared templates)'},
+            {'engine': 'verus', 'name': 'setup_endpoints', 'tier': 'quick', 'role': 'RoutingEnd::setup_endpoints: endpoint g is route g (same order, block, predicate) with exactly the senders of that block in sorted-endpoint order; the endpoints partition the senders; the structural part of RoutingEnd.inv (precondition of RoutingEnd::next) is now PROVED on the real body'},
         ],
         'explanation': 'Verus proof, for any number of senders/groups, that End::next hands a data element to exactly one sender of every '
                        'downstream group (the one at index(m) mod |group|) and to no other, broadcasts Watermark/FlushAndRestart to every sender, '
@@ -69,6 +70,7 @@ PROPS = {
             {'engine': 'verus', 'name': 'binary_select', 'tier': 'quick', 'role': 'merge (and the input side of zip / joins): the two-input receiver delivers every batch it reads from either link element by element, in order, wrapped in the variant of its side (read_step / out_rel); one side is read per call'},
             {'engine': 'verus', 'name': 'merge', 'tier': 'quick', 'role': 'Stream::merge: the unwrapping closure keeps every element of either side unchanged and drops only the side end markers (with binary_select and chain_ops: multiset union)'},
             {'engine': 'verus', 'name': 'setup_senders', 'tier': 'quick', 'role': 'End::setup_senders: block_senders partitions the sender indexes into non-empty groups - singletons for All (broadcast), otherwise exactly the senders of one downstream block per group in sorted-endpoint order - i.e. End.inv, the precondition of End::next, is now PROVED on the real body (HashMap by its map view, the two iterator chains desugared by declared templates)'},
+            {'engine': 'verus', 'name': 'setup_endpoints', 'tier': 'quick', 'role': 'RoutingEnd::setup_endpoints: endpoint g is route g (same order, block, predicate) with exactly the senders of that block in sorted-endpoint order; the endpoints partition the senders; the structural part of RoutingEnd.inv (precondition of RoutingEnd::next) is now PROVED on the real body'},
         ],
         'explanation': 'End::next sends one copy of every element to each downstream block group (split) and, with singleton groups (All), to every replica (broadcast).',
         'assumptions': [],
